@@ -111,7 +111,7 @@ for a in "012":
     for b in "012":
         for c in "012":
             H("k10c_p%s%s%s" % (a, b, c), "cabac_codec", ["C10"], unwind=18, timeout=1200, mem_gb=12,
-              tier="quick" if (a + b + c) in ("012", "021", "102", "120", "201", "210", "111", "220", "002") else "thorough",
+              tier="quick" if (a + b + c) in ("012", "021", "102", "111", "220") else "thorough",
               claim="every sequence of 3 operations of kinds (%s,%s,%s) [0=value,1=misprediction,2=correction] round-trips, uses identical context slots, leaves the channel and default_count empty" % (a, b, c),
               functions=CABAC_FUNCS, bounds="kinds concrete per harness (27 harnesses = all kind sequences of length 3); values < 64, widths <= 4, misprediction contexts symbolic, correction contexts by position (DistOnly, Len, Len)",
               outside="sequences longer than 3; larger values inside sequences (single ops cover the full range); other context patterns inside sequences", assumptions=CABAC_ASSUME + ["correction contexts concrete at every call site (a symbolic context index produced a non-reproducing CBMC counterexample; DESIGN §C10)"])
@@ -368,7 +368,10 @@ H("k06d_signature_table", "scan_deflate", ["C06", "C05"], unwind=5, timeout=600,
   functions=["scan_deflate::next_signature"], bounds="every 3-byte input")
 
 for w in ("h3", "h4"):
-    H("k02e_stored_mirror_" + w, "token_predictor", ["C02", "C08"], unwind=8, unwindset=dict(TOKEN_UW, stored_mirror=8, same_dictionary_updates=18, update_hash=8, predict_block=8, recreate_block=8), timeout=1800, mem_gb=16,
+    # thorough only: on the unchanged tree this harness SUCCEEDS in most builds but in some builds of identical sources
+    # (Kani emits std's UB precondition checks in one build and not in the other) CBMC reports realloc/pointer
+    # failures that do not reproduce natively -> inconclusive; not stable enough for the quick tier (DESIGN §6)
+    H("k02e_stored_mirror_" + w, "token_predictor", ["C02", "C08"], tier="thorough", unwind=8, unwindset=dict(TOKEN_UW, stored_mirror=8, same_dictionary_updates=18, update_hash=8, predict_block=8, recreate_block=8), timeout=1800, mem_gb=16,
       claim="stored block: recreate_block(predict_block(b)) == b, and both sides insert exactly the same positions into the dictionary (every add policy)",
       functions=["TokenPredictor::predict_block / recreate_block (stored arm)", "HashChainHolderImpl::update_hash", "DictionaryAddPolicy::update_hash"],
       bounds="stored blocks of 1..=6 bytes, every parameter vector in estimator_range (all 5 add policies)", assumptions=MODEL_ASSUME[:2] + ["recording codec Rec"])
